@@ -98,3 +98,47 @@ PROPS["C06"] = {
              "empty segment took part; distinct by (base, ref, option)"),
     "assumptions": ["paths with more than ~12 segments are rare", "schemes differing only in letter case are judged with the option off (the statement says 'equals')"],
 }
+
+PROPS["C07"] = {
+    "level": "exploration",
+    "technique": "stateful property-based testing (rapidcheck): invariant over generated operation histories (write out, read back, compare)",
+    "level_text": ("Histories of parse / resolve / create-reference / normalise(any mask) / make-owner steps over a pool of URI objects are generated and shrunk as one value; "
+                   "after every producing step the produced object must be structurally well formed, recompose to text the grammar automaton accepts, and that text must parse back to the "
+                   "same scheme, authority presence and parts, path text, query and fragment. Exploration over histories is the level the quantifier (all finite sequences) allows."),
+    "level_note": "Trusted: grammar automaton, snapshot/read-back comparison. Histories are kept legal for a borrowed-memory API (no in-place change of an object others borrow from). Histories longer than 10 steps are not generated.",
+    "quick": {"cases": 40000},
+    "thorough": {"cases": 1000000, "ceiling_s": 3000},
+    "rule": ("history = 2 correlated parses + 1..8 steps (normalise 31%, resolve 23%, create reference 23%, make owner 15%, parse 8%), ambiguity-prone segment vocabulary ('', '.', '..', 'a:b', "
+             "'%2e'), all masks, both options/modes, both character types. Non-trivial = >= 2 non-parse steps of which at least one changed a path; distinct by history"),
+    "assumptions": ["objects hand-built by a caller are outside the property ('returned by' the library)"],
+}
+
+PROPS["C08"] = {
+    "level": "exploration",
+    "technique": "property-based testing (rapidcheck) against a normal-form reference model, with the mask dimension (64) and ownership (2) enumerated exhaustively per URI",
+    "level_text": ("Each generated URI reference is normalised with ALL 64 masks from a borrowed and from an owned start state; the recomposed text must equal the model's normal form "
+                   "(scheme/host case, triplet repair and decoding of unreserved characters per component, dot-segment removal with the leading '..' rule, untouched components unchanged), "
+                   "a second application must change nothing, the mask reported by both mask queries must reproduce full normalisation, and mask 0 must mean 'already normal'."),
+    "level_note": "Trusted: M_split/M_norm (self-tested on the RFC 6.2.2 example and the repository's documented examples). In the four path corner shapes (path vanishes / empty or ':' first segment / host-less '//') alternative guard spellings are accepted and counted. Over-reporting by the mask query is allowed.",
+    "quick": {"cases": 4000},
+    "thorough": {"cases": 100000, "ceiling_s": 3000},
+    "rule": ("G_uri texts with case/percent-rich additions (upper-case schemes and hosts, %41 %7e %2F %c3%A4, IP-literal hosts in upper case) x 64 masks x {borrowed, owned} x {default, recording manager}; "
+             "non-trivial = at least two components change under the full mask or the path loses a dot segment; distinct by text (each covers its 128 (mask, ownership) sub-cases)"),
+    "assumptions": ["non-ASCII wide characters are outside the statement"],
+}
+
+PROPS["C10"] = {
+    "level": "exploration",
+    "technique": "property-based testing (rapidcheck): round trip create-reference/resolve with shape clauses, way back cross-checked against the RFC 5.2 model",
+    "level_text": ("For correlated pairs of absolute URIs (S, B) the reference D produced by uriRemoveBaseUri(Mm) in both modes is resolved against B with the library (and, on "
+                   "disagreement, with the RFC 5.2 model) and must give S back, compared after dot-segment normalisation with an empty path under an authority read as '/'. Shape clauses "
+                   "(scheme omitted / authority omitted / absolute path in domain-root mode / S unchanged for differing schemes) are demanded exactly where a reference of that shape "
+                   "provably exists; the two error codes are checked for non-absolute inputs."),
+    "level_note": "Trusted: uriAddBaseUri for the way back (itself checked by C06 against the model), snapshots. One open known finding (F-S5: base path with dot segments) is excluded by class predicate and counted.",
+    "quick": {"cases": 60000},
+    "thorough": {"cases": 1500000, "ceiling_s": 3000},
+    "rule": ("(S, B) from one pool with forced overlap classes: identical 8%, S prefix of B 12%, B prefix of S 14%, differ in last segment 16%, other port/userinfo/authority 10%, query on one side 8%, "
+             "rooted vs rootless 6%, other scheme 8%, unrelated path 12%, non-absolute 6%; '.'/'..' segments in 15%; both modes; both managers; both character types. "
+             "Non-trivial = same scheme and same host presence/text (the relative branch is reachable); distinct by (S, B, mode)"),
+    "assumptions": ["when both S and B lack a scheme either error code is accepted"],
+}
